@@ -55,8 +55,9 @@ class Gen:
     def __init__(self, rng, profile="py", tag_calls=False, max_ops=12, nphases=None, allow_end=True,
                  weird_names=True, persistent_arrays=True, multi_result=True, persist_tag="",
                  readonly_state=(), advance_time=True, phase_plan=None, components=None, funcs=None,
-                 ifexpr=True, call_bias=0.0, counters=None, extra_locals=(), containers=False):
+                 ifexpr=True, call_bias=0.0, counters=None, extra_locals=(), containers=False, lookups=False):
         self.containers = containers
+        self.lookups = lookups
         self.ifexpr = ifexpr
         self.call_bias = call_bias
         self.counters = list(counters or COUNTERS)
@@ -95,7 +96,10 @@ class Gen:
             return self.const()
         if r < 0.35 and sc.counters:
             return ["var", rng.choice(list(sc.counters))]
-        return ["var", rng.choice(pool)]
+        v = ["var", rng.choice(pool)]
+        if self.lookups and rng.random() < 0.2 and not v[1].startswith("$"):
+            return ["lookup", v, "real"]         # 'y.real': the variable is read through an attribute lookup
+        return v
 
     def int_expr(self, sc, lo=0, hi=None):
         """int-typed expression (subscripts, bounds)."""
